@@ -56,8 +56,11 @@ def gen_tables():
     rc, out = sh([sys.executable, os.path.join(VERIF, "harness", "gen_tables.py")], timeout=600)
     return rc == 0, out
 
-def lake_build():
-    rc, out = sh("lake build PauLieVerif paulie_model", cwd=LEAN, timeout=3600)
+def lake_build(modules=()):
+    """Builds the library, the model executable and — explicitly, so that no stale
+    .olean can be picked up by the audit — every module the audit imports."""
+    extra = " ".join("+" + m for m in modules)
+    rc, out = sh(f"lake build PauLieVerif paulie_model {extra}", cwd=LEAN, timeout=3600)
     return rc == 0, out
 
 _HYGIENE = re.compile(r"\b(sorry|admit|native_decide|bv_decide|implemented_by|unsafe|maxHeartbeats\s+0)\b|^\s*axiom\s", re.M)
@@ -179,6 +182,20 @@ def load_known():
         return {"findings": [], "fixed": []}
     return json.load(open(p))
 
+_KNOWN = None
+def known_lookup(pid, sig):
+    """A failure is suppressed only if (property, signature) is listed in the
+    committed known_findings.json; the file is never written at run time."""
+    global _KNOWN
+    if sig is None:
+        return None
+    if _KNOWN is None:
+        _KNOWN = load_known()
+    for f in _KNOWN.get("findings", []):
+        if f.get("property") == pid and f.get("signature") == sig:
+            return f
+    return None
+
 def corpus_lines(pid: str) -> list[str]:
     p = os.path.join(CORPUS, f"{pid}.jsonl")
     out = []
@@ -259,7 +276,7 @@ def prepare(res: Result, theorems: list[str], imports: list[str]):
         info["tables"] = ok
         if not ok:
             broken.append(("table generation failed", out[-2000:]))
-        ok, out = lake_build()
+        ok, out = lake_build(imports)
         info["build"] = ok
         if not ok:
             errs = [l for l in out.splitlines() if "error" in l.lower()][:20]
